@@ -405,7 +405,7 @@ def srepr(v):
 def ser(f, limit=2000):
     """serialize() that survives ints beyond Python's str() digit limit"""
     try:
-        return f.serialize()[:limit]
+        return f.serialize()[:limit].encode("ascii", "backslashreplace").decode("ascii")
     except ValueError:
         return "<formula with an integer constant of more than 4300 digits; see repro>"
 
@@ -574,6 +574,27 @@ REAL_CONSTS = [Fraction(0), Fraction(1), Fraction(-1), Fraction(1, 2), Fraction(
 STR_CONSTS = ["", "a", "ab", "abc", "ba", "aa", "abcabc", "0", "12", "-5", " 12", "12 ", "007", "1_0", "+5", "_1",
               "1__0", "\t3\n", "\xa07", "9" * 25, "x y", "-", "1 2", "- 5"]
 STR_IDX = [0, 1, 2, 3, 4, 6, 7, -1, -2, -3, -7, 100, -100, 2 ** 70]
+# strings on which Python's str builtins (isdigit / isdecimal / int / str.strip / len on UTF-16 platforms) and the
+# SMT-LIB 2.6 theory (digits are U+0030..U+0039 only; a string is a sequence of code points) can disagree
+STR_HAZARD = [
+    "", "0", "7", "00", "007", "42", "+1", "-1", " 1", "1 ", "1_0", "0x10", "1e3", "\n1", "1a",
+    "\u0663", "\u0661\u0662",                  # ARABIC-INDIC digits (category Nd)
+    "\u06f4\u06f2",                            # EXTENDED ARABIC-INDIC digits
+    "\uff11\uff12", "\uff10",                  # FULLWIDTH digits
+    "\u096a\u0968",                            # DEVANAGARI digits
+    "\u0e53", "\u1811",                        # THAI, MONGOLIAN digits
+    "1\u0663", "\u06634", "0\uff11",           # ASCII and non-ASCII digits mixed
+    "\U0001d7d7", "\U0001d7ce\U0001d7cf",      # MATHEMATICAL digits (beyond the BMP, category Nd)
+    "\u00b2", "\u2460", "\u2075", "\u00b9\u00b2",   # superscripts / circled: isdigit() but int() raises
+    "\u00bd", "\u216b", "\u4e09", "\u3007",    # numeric but neither digit nor decimal
+    "\u20031", "1\u2003", "\x1f1", "\x851", "\ufeff1",   # Unicode spaces / separators around a digit
+    "\u2212" + "1", "\uff0b1",                  # MINUS SIGN, FULLWIDTH PLUS
+    "\xe9", "\xdf", "\u0130", "\u01c5", "\ufb01",     # case-folding oddities (length changes under upper/casefold)
+    "e\u0301",                                  # combining sequence
+    "\U00010000", "a\U0001f600b", "\U0002ffff", "\U0001f600\U0001f600",   # beyond the BMP: one code point each
+    "\ud7ff", "\ud800", "\udbff", "\udc00", "\udfff", "\ue000", "\ud800\udc00", "x\udc00\ud800y",   # around the surrogates
+    "\x00", "\x000", "\uffff",
+]
 
 
 class Directed(object):
@@ -835,6 +856,161 @@ class Directed(object):
                 m.Store(nested, c[3], avs[3]), m.Store(nested, c[1], avs[0]), m.Select(m.Select(aa, i), j),
                 m.Equals(m.Select(nested, c[1]), avs[2]), m.Equals(m.Select(nested, c[1]), avs[3]),
                 m.Equals(nested, m.Array(INT, avs[0])), m.Equals(nested, aa)]
+        return out
+
+    def gen_string_hazard(self):
+        """every string rule on the hazard pool STR_HAZARD (constants; the rules fold)"""
+        m, rnd = self.m, self.rnd
+        quick = self.tier == "quick"
+        pool = STR_HAZARD
+        C = dict((v, m.String(v)) for v in pool)
+        one, x_ = m.String("1"), m.String("x")
+        out = []
+        for v in pool:
+            c = C[v]
+            n = len(v)
+            rest, out_all = [], out
+            out_all += [m.StrToInt(c), m.StrLength(c), m.IntToStr(m.StrToInt(c)), m.StrLength(m.IntToStr(m.StrToInt(c))),
+                    m.StrToInt(m.StrConcat(c, one)), m.StrToInt(m.StrConcat(one, c)), m.StrToInt(m.StrConcat(c, c)),
+                    m.StrLength(m.StrConcat(c, c)), m.Equals(m.StrToInt(c), m.Int(-1)),
+                    m.StrToInt(m.StrConcat(self.sx, c)), m.Plus(m.StrToInt(c), self.i),
+                    m.Ite(m.LE(m.Int(0), m.StrToInt(c)), m.StrConcat(self.sx, c), self.sx)]
+            out = rest          # the other families: all of them in the thorough tier, a sample per string in quick
+            for i in sorted(set([0, 1, n - 1, n, -1, n + 1])):
+                out.append(m.StrCharAt(c, m.Int(i)))
+                out.append(m.StrToInt(m.StrCharAt(c, m.Int(i))))
+            for i, k in [(0, 1), (0, n), (1, n), (n - 1, 1), (0, n - 1), (1, 1), (n, 1), (-1, 2), (0, 0), (1, 2 ** 70)]:
+                out.append(m.StrSubstr(c, m.Int(i), m.Int(k)))
+            pieces = [v[-1:], v[:1], v[1:], v[:-1], "", "1", v + v[:1]]
+            for t in pieces:
+                ct = m.String(t)
+                out += [m.StrContains(c, ct), m.StrPrefixOf(ct, c), m.StrSuffixOf(ct, c), m.StrReplace(c, ct, x_)]
+                for i in (0, 1, n, n + 1, -1):
+                    out.append(m.StrIndexOf(c, ct, m.Int(i)))
+            out += [m.StrReplace(c, m.String(v[-1:]), c), m.StrReplace(x_, x_, c), m.StrLength(m.StrReplace(c, m.String(v[:1]), m.String("")))]
+            out = out_all
+            out += self.pick(rest, 11) if quick else rest
+        for a, b in self.pick(itertools.product(pool, pool), 32 if quick else 1000):
+            ca, cb = C[a], C[b]
+            out += [m.StrConcat(ca, cb), m.StrLength(m.StrConcat(ca, cb)), m.StrContains(m.StrConcat(ca, cb), cb),
+                    m.StrIndexOf(m.StrConcat(ca, cb), cb, m.Int(len(a))), m.StrIndexOf(m.StrConcat(ca, cb), cb, m.Int(0)),
+                    m.StrPrefixOf(ca, m.StrConcat(ca, cb)), m.StrSuffixOf(cb, m.StrConcat(ca, cb)),
+                    m.StrSuffixOf(ca, cb), m.StrReplace(m.StrConcat(ca, cb), cb, ca), m.Equals(ca, cb),
+                    m.StrToInt(m.StrConcat(ca, cb)), m.StrCharAt(m.StrConcat(ca, cb), m.Int(len(a)))]
+        for k in [-5, -1, 0, 1, 9, 10, 99, 100, 4300, 12345678901234567890, 10 ** 40, -(10 ** 40)]:
+            out += [m.IntToStr(m.Int(k)), m.StrToInt(m.IntToStr(m.Int(k))), m.StrLength(m.IntToStr(m.Int(k))),
+                    m.Equals(m.StrToInt(m.IntToStr(m.Plus(self.i, m.Int(k)))), m.Plus(self.i, m.Int(k))),
+                    m.StrToInt(m.StrConcat(m.IntToStr(m.Int(k)), m.String("\u0663")))]
+        return out
+
+    # index sorts of the array-nesting family: three finite ones, three infinite ones
+    NEST_IDX = [BOOL, BVType(1), BVType(2), INT, REAL, STRING]
+
+    def _idx_consts(self, t):
+        m = self.m
+        if t.is_bool_type():
+            return [m.FALSE(), m.TRUE()]
+        if t.is_bv_type():
+            return [m.BV(v, t.width) for v in range(1 << t.width)]
+        if t.is_int_type():
+            return [m.Int(0), m.Int(7)]
+        if t.is_real_type():
+            return [m.Real(0), m.Real(Fraction(1, 3))]
+        return [m.String(""), m.String("k")]
+
+    def _nest_values(self, ty):
+        """(values, alt): ground values of sort ty in several spellings.  values[0] = D and values[1] = E are the
+        constant arrays of 0 and of 1 (all the way down); when alt is true values[2] is ANOTHER SPELLING of E (same
+        array, different term): over a finite index sort every index assigned to E (covers the domain, hides the
+        default), over any index sort the constant array of another spelling of E's element - so the hidden equality
+        propagates to every depth.  Then: one exception at the first / last listed index, every listed index
+        assigned, exceptions spelled with the alternative element, constant arrays of further element values."""
+        m = self.m
+        if not ty.is_array_type():
+            return [m.Int(0), m.Int(1)], False
+        elems, ealt = self._nest_values(ty.elem_type)
+        idxs = self._idx_consts(ty.index_type)
+        it = ty.index_type
+        finite = it.is_bool_type() or it.is_bv_type()
+        d, e = elems[0], elems[1]
+        cover = m.Array(it, d, dict((i, e) for i in idxs))
+        res = [m.Array(it, d), m.Array(it, e)]
+        alts = []
+        if ealt:
+            e2 = elems[2]
+            alts.append(m.Array(it, e2))
+            alts.append(m.Array(it, e, {idxs[0]: e2}))
+            if finite:
+                alts.append(m.Array(it, d, dict((i, (e2 if k % 2 else e)) for k, i in enumerate(idxs))))
+        if finite:
+            alts.append(cover)
+            alts.append(m.Array(it, e, {idxs[-1]: e}))
+        alt = bool(alts)
+        res += alts
+        if not finite:
+            res.append(cover)
+        res += [m.Array(it, d, {idxs[0]: e}), m.Array(it, d, {idxs[-1]: e}), m.Array(it, e, {idxs[0]: e, idxs[-1]: d})]
+        if ealt:
+            res += [m.Array(it, d, {idxs[0]: elems[2]}), m.Array(it, d, {idxs[-1]: elems[2]})]
+        res += [m.Array(it, x) for x in elems[3:6]]
+        seen, out = set(), []
+        for r in res:
+            if r not in seen:
+                seen.add(r)
+                out.append(r)
+        # out[2] must be a spelling of E different from out[1]
+        if alt and (len(out) < 3 or out[2] is out[1]):
+            alt = False
+        return out, alt
+
+    def gen_array_nest(self):
+        """Equalities (and store/select) between ground array values over every chain of index sorts of depth 1..3 and,
+        at depth 4, every finite/infinite pattern (thorough tier: every chain): pairs of values that are extensionally
+        equal but spelled differently at some level, and pairs that are extensionally different."""
+        m, rnd = self.m, self.rnd
+        quick = self.tier == "quick"
+        I = self.NEST_IDX
+        fin, inf = I[:3], I[3:]
+        chains = []
+        for depth in (1, 2, 3):
+            chains += list(itertools.product(I, repeat=depth))
+        if quick:
+            for pat in itertools.product((0, 1), repeat=4):
+                for _ in range(2):
+                    chains.append(tuple(rnd.choice(inf if b else fin) for b in pat))
+        else:
+            chains += list(itertools.product(I, repeat=4))
+        it0 = refeval.random_interp(rnd, [m.TRUE()])
+        out = []
+        self.nest_stats = {"chains": len(chains), "equal_pairs": 0, "different_pairs": 0, "by_depth": {}}
+        for ch in chains:
+            ty = INT
+            for i in reversed(ch):
+                ty = ArrayType(i, ty)
+            vals, alt = self._nest_values(ty)
+            den = [refeval.evaluate(v, it0) for v in vals]
+            assert not alt or den[1] == den[2]
+            eq = [(a, b) for a in range(len(vals)) for b in range(len(vals)) if a != b and den[a] == den[b]]
+            ne = [(a, b) for a in range(len(vals)) for b in range(len(vals)) if a < b and den[a] != den[b]]
+            eq = self.pick(eq, 3 if quick else (12 if len(ch) < 4 else 5))
+            if alt and (1, 2) not in eq:
+                eq[0] = (1, 2)
+            ne = self.pick(ne, (2 if len(ch) < 3 else 1) if quick else (10 if len(ch) < 4 else 3))
+            self.nest_stats["equal_pairs"] += len(eq)
+            self.nest_stats["different_pairs"] += len(ne)
+            n0 = len(out)
+            for a, b in eq + ne:
+                out.append(m.Equals(vals[a], vals[b]))
+            ks = self._idx_consts(ty.index_type)
+            evs = self._nest_values(ty.elem_type)[0]
+            # store / select on the values: a store may complete the coverage of a finite domain
+            a = rnd.randrange(len(vals))
+            b = rnd.randrange(len(vals))
+            k = rnd.choice(ks)
+            x = rnd.choice(evs)
+            out += [m.Equals(m.Store(vals[a], k, x), vals[b]), m.Equals(m.Select(vals[a], k), m.Select(vals[b], ks[-1])),
+                    m.Equals(m.Store(m.Store(vals[0], ks[0], evs[1]), ks[-1], evs[1]), vals[1])]
+            self.nest_stats["by_depth"][len(ch)] = self.nest_stats["by_depth"].get(len(ch), 0) + len(out) - n0
         return out
 
     def gen_uf_quant(self):
@@ -1169,7 +1345,8 @@ def run_simplify(chk, rnd, tier):
     # ---- directed ----
     t1 = time.time()
     plan = [("bool", lambda d: d.gen_bool()), ("int", lambda d: d.gen_arith(INT)), ("real", lambda d: d.gen_arith(REAL)),
-            ("strings", lambda d: d.gen_strings()), ("arrays", lambda d: d.gen_arrays()), ("uf-quant", lambda d: d.gen_uf_quant())]
+            ("strings", lambda d: d.gen_strings()), ("string-hazard", lambda d: d.gen_string_hazard()),
+            ("arrays", lambda d: d.gen_arrays()), ("array-nest", lambda d: d.gen_array_nest()), ("uf-quant", lambda d: d.gen_uf_quant())]
     for w in ((4, 8, 32, 64, 129) if quick else (1, 2, 3, 4, 5, 8, 16, 32, 64, 129)):
         plan.append(("bv-shapes-%d" % w, lambda d, w=w: d.gen_bv_shapes(w)))
     for w in ((1, 2, 3, 4) if quick else (1, 2, 3, 4, 5)):
@@ -1179,6 +1356,18 @@ def run_simplify(chk, rnd, tier):
         with EnvCtx() as env:
             d = Directed(env, rnd, tier)
             fs = fn(d)
+            if name == "array-nest":
+                chk.cov.setdefault("directed_families", {})["array-nest"] = dict(
+                    d.nest_stats, index_sorts=["Bool", "BV1", "BV2", "Int", "Real", "String"],
+                    what="Equals / Store / Select on ground array values over chains of index sorts; pairs extensionally "
+                         "equal but spelled differently at some depth (full coverage of a finite index domain) and "
+                         "extensionally different pairs; refeval decides extensionally")
+            if name == "string-hazard":
+                chk.cov.setdefault("directed_families", {})["string-hazard"] = {
+                    "pool": len(STR_HAZARD), "cases": len(set(fs)),
+                    "what": "every str.* rule on strings where Python builtins and SMT-LIB differ (Unicode Nd digits, "
+                            "fullwidth, superscripts, signs, spaces, underscores, code points beyond the BMP and around "
+                            "the surrogates); model and oracle work on code points"}
             seen = set()
             for f in fs:
                 if f in seen:
